@@ -282,6 +282,7 @@ def run_case(case):
     victim = case['victim']
     pre = {k: v for k, v in case.items() if k not in ('victim', 'follow', 'sample_seed')}
     H = history.History(pre, 'c03', ('store',))
+    H.W.live_shared = False       # with faults in play each user keeps an object of its own
     local = LocalUniverse(H) if case.get('backend') == 'local' else None
     evaluations = 0
     states = set()
